@@ -22,6 +22,7 @@ class NullFlow(Engine):
         self.returns: List[dict] = []
         self.reads: Dict[str, set] = {}
         self.listings: Dict[str, dict] = {}
+        self.parses: Dict[str, set] = {}
         self.values: Dict[str, set] = {}
 
     def count(self, kind, st, node):
@@ -33,6 +34,9 @@ class NullFlow(Engine):
         self.find_('NO-ELEM-BOOL', st, node, f'bool({self.describe(elem, st)})',
                    'an Element is used as a condition: its truth value is "has children" (a childless element is false) and '
                    'testing it emits DeprecationWarning on Python 3.12, which -W error turns into an exception')
+
+    def on_parse(self, st, node, name=None, args=(), kwargs=None):
+        self.parses.setdefault(self.entry, set()).add((name.split('.')[-1], tuple(self.describe(a, st) for a in args), tuple(sorted(kwargs or {}))))
 
     def on_find(self, st, node, parent, tag, result, path):
         pe = st.get(parent.sym)
@@ -82,6 +86,7 @@ def result(eng: NullFlow, kind, name, extra=None):
             'sites': {k: sorted(v) for k, v in eng.sites.items()}, 'notes': eng.notes, 'stats': eng.stats,
             'functions': sorted(eng.functions_entered), 'prints': eng.prints, 'returns': eng.returns,
             'reads': {k: sorted(v) for k, v in eng.reads.items()},
+            'parses': {k: sorted(v) for k, v in eng.parses.items()},
             'listings': {k: {'ordered': v['ordered'], 'stages': sorted(v['stages']), 'elements': sorted(v['elements'])} for k, v in eng.listings.items()},
             'values': {k: sorted(v) for k, v in eng.values.items()}, **(extra or {})}
 
